@@ -127,7 +127,32 @@ impl Ctx {
         };
         let r = guarded(|| block.verify(1, [self.sk.public()]));
         let own = guarded(|| Metablock::new(meta.clone(), &[&self.sk]));
-        let same = matches!(&own, Ok(Ok(mb)) if mb.signatures.len() == 1 && mb.signatures[0].value().as_bytes() == sig_ref.as_ref());
+        let mut same = matches!(&own, Ok(Ok(mb)) if mb.signatures.len() == 1 && mb.signatures[0].value().as_bytes() == sig_ref.as_ref());
+        // every signing entry point signs the same bytes: the builder from a value, and the builder from serialised
+        // metadata - written plainly, in the interchange's canonical form, and laid out for reading
+        use in_toto::interchange::{DataInterchange, Json};
+        let mut raws: Vec<Vec<u8>> = vec![serde_json::to_vec(meta).unwrap(), serde_json::to_vec_pretty(meta).unwrap()];
+        if let Ok(c) = Json::canonicalize(&signed) {
+            raws.push(c);
+        }
+        let mut built: Vec<std::result::Result<Metablock, String>> = vec![guarded(|| {
+            in_toto::models::MetablockBuilder::from_metadata(meta.clone().into_trait()).sign(&[&self.sk]).map(|b| b.build())
+        })
+        .map_err(|p| p.to_string())
+        .and_then(|r| r.map_err(|e| e.to_string()))];
+        for raw in &raws {
+            built.push(
+                guarded(|| in_toto::models::MetablockBuilder::from_raw_metadata(raw).and_then(|b| b.sign(&[&self.sk])).map(|b| b.build()))
+                    .map_err(|p| p.to_string())
+                    .and_then(|r| r.map_err(|e| e.to_string())),
+            );
+        }
+        for b in &built {
+            match b {
+                Ok(mb) if mb.signatures.len() == 1 && mb.signatures[0].value().as_bytes() == sig_ref.as_ref() && mb.metadata == *meta => {}
+                _ => same = false,
+            }
+        }
         (outcome(&r).to_string(), same)
     }
 
